@@ -95,11 +95,18 @@ def byline_collect(idx, rep, rid):
     for collect in (True, False):
         fi, rows = RM.byline_rows(idx, 2, "plain", collect=collect)
         bad = None
+        bads = {}
         for agree, p in rows:
             for aspect, ok, detail in RJ.byline_judge("plain", agree, p, 2):
                 if aspect == "collected" and not ok:
                     bad = bad or detail
+                elif aspect in ("schedule", "yields") and not ok:
+                    bads.setdefault(aspect, detail)
         rep.check(bad is None, rid, f"{fi.file}::CsvPaths.next_by_line table collected (collect={collect})", bad or f"{len(rows)} paths", K.where(fi, fi.node))
+        if collect:
+            # collecting must not change what the members and the caller see: one member's collect() projection is not the next member's line
+            for aspect in ("schedule", "yields"):
+                rep.check(aspect not in bads, rid, f"{fi.file}::CsvPaths.next_by_line table collecting {aspect}", bads.get(aspect, f"{len(rows)} paths"), K.where(fi, fi.node))
         rep.stats["table_rows"] = rep.stats.get("table_rows", 0) + len(rows)
 
 
@@ -109,8 +116,6 @@ def r1(idx, rep):
     # here: the standalone driver has the same step (C01.R4/C03.R6 tables) and by-line appends the limited line
     fi = idx.method("CsvPaths", "next_by_line")
     rep.analysed(fi)
-    calls = [unparse(n) for n in walk_no_nested(fi.node) if isinstance(n, ast.Call) and call_name(n) == "limit_collection"]
-    rep.check(calls == ["self.current_matcher.limit_collection(line)"], "R1", f"{fi.file}::CsvPaths.next_by_line collects through limit_collection", f"{calls}", K.where(fi, fi.node))
     # the by-line driver hands every reader line to _consider_line, which alone decides about blank records: its table
     from . import consider_model as CM
     fc, crow = CM.rows(idx)
